@@ -145,6 +145,24 @@ def read(src):
     if start + len(rows) != tags["FOAM_LIMIT"]:
         raise GenError("foamInfoTable has %d rows, FOAM_LIMIT-FOAM_START = %d" % (len(rows), tags["FOAM_LIMIT"] - start))
 
+    def name_table(tabname, enum_prefix, vals, start, limit):
+        mm = re.search(r"%s\s*\[\s*\]\s*=\s*\{(.*?)\n\};" % tabname, foam_c, re.S)
+        if not mm:
+            raise GenError("%s not found" % tabname)
+        ents = re.findall(r"\{\s*(%s\w+)\s*,\s*0\s*,\s*\"([^\"]*)\"" % enum_prefix, mm.group(1))
+        if len(ents) != limit - start:
+            raise GenError("%s: %d rows, expected %d" % (tabname, len(ents), limit - start))
+        for i, (k, nm) in enumerate(ents):
+            if vals.get(k) != start + i:
+                raise GenError("%s row %d is %s" % (tabname, i, k))
+        return [nm for _, nm in ents]
+    ddecls, _ = parse_enum(foam_h_pp, "foamDDeclTag")
+    bval_names = name_table("foamBValInfoTable", "FOAM_BVal_", bvals, bvals["FOAM_BVAL_START"], bvals["FOAM_BVAL_LIMIT"])
+    proto_names = name_table("foamProtoInfoTable", "FOAM_Proto_", protos, protos["FOAM_PROTO_START"], protos["FOAM_PROTO_LIMIT"])
+    ddecl_names = name_table("foamDDeclInfoTable", "FOAM_DDecl_", ddecls, 0, ddecls["FOAM_DDECL_LIMIT"])
+    foam_h_raw = strip_comments(open(src + "/foam.h").read())
+    slots = {k: ceval(define(foam_h_raw, k), {}) for k in ("globalsSlot", "constsSlot")}
+
     env = dict(tags)
     env["BYTE_BITS"] = ceval(define(cport, "BYTE_BITS"), {})
     for k in ("BYTE_BYTES", "HINT_BYTES", "SINT_BYTES"):
@@ -212,6 +230,7 @@ def read(src):
     return {"tags": tags, "rows": rows, "bvals": bvals, "protos": protos, "env": env,
             "bval_bytes": bval_bytes, "u16_per_digit": sz_bints // 2, "sizeof_aint": sz_aint,
             "lib": lib, "sect_names": sect_names, "foam_start": start,
+            "bval_names": bval_names, "proto_names": proto_names, "ddecl_names": ddecl_names, "slots": slots,
             "bval_start": bvals["FOAM_BVAL_START"], "proto_start": protos["FOAM_PROTO_START"]}
 
 
@@ -221,7 +240,7 @@ def render(info):
     L.append("(* GENERATED by tools/foaminfo_gen.py from foam.h, foam.c, cport.h, lib.h, lib.c of the")
     L.append("   current tree on every run.  Do not edit. *)")
     L.append("Require Import ZArith List.")
-    L.append("Require Import AV.Foam.Buf AV.Foam.Syntax AV.Foam.LibHdr.")
+    L.append("Require Import AV.Foam.Buf AV.Foam.Syntax AV.Foam.LibHdr AV.Foam.SExpr.")
     L.append("Import ListNotations.")
     L.append("Local Open Scope Z_scope.")
     L.append("")
@@ -250,6 +269,19 @@ def render(info):
     b = info["bvals"]
     L.append("  (* BVal SIntShiftUp SIntOr SIntNegate *) (%d) (%d) (%d)." % (
         b["FOAM_BVal_SIntShiftUp"], b["FOAM_BVal_SIntOr"], b["FOAM_BVal_SIntNegate"]))
+    L.append("")
+    def names(nm, lst):
+        L.append("Definition %s : list bytes := [" % nm)
+        L.append(";\n".join("  (* %s *) [%s]" % (x, "; ".join(str(b) for b in x.encode())) for x in lst))
+        L.append("].")
+        L.append("")
+    names("tag_names", [r[1] for r in info["rows"]])
+    names("bval_names", info["bval_names"])
+    names("proto_names", info["proto_names"])
+    names("ddecl_names", info["ddecl_names"])
+    L.append("Definition TP : text_params := mkTextParams tag_names bval_names proto_names ddecl_names")
+    L.append("  (* Unit Par Loc Glo Const EElt *) %s %s %s %s %s %s" % (T("Unit"), T("Par"), T("Loc"), T("Glo"), T("Const"), T("EElt")))
+    L.append("  (* globalsSlot constsSlot *) (%d) (%d)." % (info["slots"]["globalsSlot"], info["slots"]["constsSlot"]))
     L.append("")
     L.append("Definition LP : lib_params := mkLibParams")
     L.append("  (* libHdrMagic *) (%d) (* libMajorVersion *) (%d) (* libMinorVersion *) (%d)" % (lib["magic"], lib["major"], lib["minor"]))
